@@ -150,7 +150,7 @@ pub fn explore(ex: &Ex) {
             Scale::Thorough => &[0, 1, 22, 23, 24, 25, 254, 255, 256, 257, 65534, 65535, 65536, 65537, 1 << 20],
         };
         let mut contents: Vec<Vec<u8>> = lens.iter().map(|n| gen::pattern(*n)).collect();
-        for c in [&[0xd2u8, 0x84, 0x40, 0xa0, 0xf6, 0x40][..], &[0x40], &[0xa0], &[0xf6], &[0xff], &[0x00], &[0x84, 0x40, 0xa0, 0xf6, 0x40], &[0xd8, 0x3d], &[0xc2, 0x41, 0x01], &[b' ', b'x', b' ']] {
+        for c in [&[0xd2u8, 0x84, 0x40, 0xa0, 0xf6, 0x40][..], &[0x40], &[0xa0], &[0xf6], &[0xff], &[0x00], &[0x84, 0x40, 0xa0, 0xf6, 0x40], &[0xd8, 0x3d], &[0xc2, 0x41, 0x01], &[b' ', b'x', b' '], &[0x30, 0x81], &[0x30, 0x82, 0x01], &[0x30, 0x06, 0x02, 0x01, 0x01, 0x02, 0x01, 0x01], b"-----BEGIN", b"{\"a\":1}", &[0x1f, 0x8b, 0x08], &[0xef, 0xbb, 0xbf]] {
             contents.push(c.to_vec());
         }
         ex.bound("c09.opaque", "contents", json!(contents.len()));
@@ -194,6 +194,47 @@ pub fn explore(ex: &Ex) {
                             ex.decode(l, "c09.opaque", *ty, Entry::Tagged, &Item::tag(t, m.clone()).det());
                         }
                     }
+                }
+            }
+        });
+    }
+    // no structure rule depends on which algorithm a header names: every registered algorithm (and
+    // its neighbours, private-use and text) at every alg position of one representative per
+    // structure - body and element, protected and unprotected - with payload / ciphertext present
+    // and two nested recipients below the recipient
+    {
+        use crate::refiana::Reg;
+        use gen::{arr, b, bwrap, map, sig_valid, t, u};
+        let mut algs: Vec<Item> = super::registry_labels(&[Reg::Algorithm]);
+        algs.push(t("alg"));
+        ex.bound("c09.algs", "algorithms", json!(algs.len()));
+        par_partitions(ex.rep, algs, |a, l| {
+            let hp = |on: bool| if on { bwrap(&map(vec![(u(1), a.clone())])) } else { b(b"") };
+            let hu = |on: bool| if on { map(vec![(u(1), a.clone())]) } else { map(vec![]) };
+            let leaf = arr(vec![b(b""), map(vec![]), b(b"k")]);
+            let leaf2 = arr(vec![bwrap(&map(vec![(u(4), b(b"r"))])), map(vec![]), crate::refcbor::NULL]);
+            for prot in [true, false] {
+                let (p, up) = (hp(prot), hu(!prot));
+                let rec = arr(vec![p.clone(), up.clone(), b(b"wrapped"), arr(vec![leaf.clone(), leaf2.clone()])]);
+                let rec_flat = arr(vec![p.clone(), up.clone(), b(b"wrapped")]);
+                let sig = arr(vec![p.clone(), up.clone(), b(b"\x30\x06\x02\x01\x01\x02\x01\x01")]);
+                let cases: Vec<(Ty, Item)> = vec![
+                    (Ty::Sign1, arr(vec![p.clone(), up.clone(), b(b"payload"), b(b"sig")])),
+                    (Ty::Mac0, arr(vec![p.clone(), up.clone(), b(b"payload"), b(b"0123456789abcdef")])),
+                    (Ty::Encrypt0, arr(vec![p.clone(), up.clone(), b(b"ct")])),
+                    (Ty::Signature, sig.clone()),
+                    (Ty::Sign, arr(vec![b(b""), map(vec![]), b(b"payload"), arr(vec![sig.clone(), sig_valid()])])),
+                    (Ty::Sign, arr(vec![p.clone(), up.clone(), b(b"payload"), arr(vec![sig_valid()])])),
+                    (Ty::Recipient, rec.clone()),
+                    (Ty::Recipient, rec_flat.clone()),
+                    (Ty::Encrypt, arr(vec![b(b""), map(vec![]), b(b"ct"), arr(vec![rec.clone()])])),
+                    (Ty::Encrypt, arr(vec![p.clone(), up.clone(), b(b"ct"), arr(vec![rec_flat.clone(), leaf.clone()])])),
+                    (Ty::Mac, arr(vec![b(b""), map(vec![]), b(b"payload"), b(b"0123456789abcdef"), arr(vec![leaf.clone(), rec.clone()])])),
+                    (Ty::Mac, arr(vec![p.clone(), up.clone(), b(b"payload"), b(b"tag"), arr(vec![rec_flat.clone()])])),
+                ];
+                for (ty, m) in cases {
+                    l.state(1);
+                    ex.decode(l, "c09.algs", ty, Entry::Slice, &m.det());
                 }
             }
         });
